@@ -24,7 +24,8 @@ import (
 //   - final: every cancelled waiter got error code -32097 (Cancelled) and has
 //     no handler entry; every other call got its own invocation's token.
 //
-// No notifications are used, so every arrived call is dispatched at once.
+// Only instant notifications are used (also failing ones), so at a quiescent
+// point every arrived call has been dispatched unless all slots are held.
 
 type c06script struct {
 	limit   int
@@ -55,8 +56,18 @@ func c06build(s c06script) (wires []string, calls []c06call) {
 				parts = append(parts, peer.Req(cl.id, "g", cl.tag))
 			case "i":
 				parts = append(parts, peer.Req(cl.id, "i", cl.tag))
+			case "e": // call whose handler returns an error
+				parts = append(parts, peer.Req(cl.id, "e", cl.tag))
 			case "b":
 				parts = append(parts, peer.Req(cl.id, "rpc.serverInfo", ""))
+			case "E": // notification whose handler returns an error
+				parts = append(parts, peer.Req("", "e", cl.tag))
+				cl.id = ""
+			case "n": // instant notification
+				parts = append(parts, peer.Req("", "i", cl.tag))
+				cl.id = ""
+			case "u": // call whose result cannot be marshalled
+				parts = append(parts, peer.Req(cl.id, "u", cl.tag))
 			}
 			calls = append(calls, cl)
 		}
@@ -165,6 +176,12 @@ func c06exec(c *vt.Ctx, r c06run) {
 			}
 		}
 		for _, cl := range calls {
+			if cl.id == "" {
+				if rig.Log.Count("h.exit", cl.tag) != 1 {
+					c.Failf("notification %s did not run exactly once", cl.tag)
+				}
+				continue
+			}
 			m, ok := replies[cl.id]
 			if !ok {
 				c.Failf("no response for call %s (id %s)", cl.tag, cl.id)
@@ -181,6 +198,14 @@ func c06exec(c *vt.Ctx, r c06run) {
 			case cl.kind == "b":
 				if m.Error != nil {
 					c.Failf("rpc.serverInfo failed: %+v", m.Error)
+				}
+			case cl.kind == "e":
+				if m.Error == nil || m.Error.Code != 7 {
+					c.Failf("call %s: want its handler's error (code 7), got result=%s error=%+v", cl.tag, m.Result, m.Error)
+				}
+			case cl.kind == "u":
+				if m.Error == nil {
+					c.Failf("call %s returned an unmarshalable value; want an error response, got result=%s", cl.tag, m.Result)
 				}
 			default:
 				if m.Error != nil || !strings.HasPrefix(m.ResultToken(), cl.tag+"/") {
@@ -208,7 +233,7 @@ func init() {
 		Rule: "Concurrency L in {1,2,3,4,8} x total calls in {L-1,L,L+1,2L+1} split into 1-3 batches of gated calls (with instant and built-in rpc.serverInfo members mixed in) " +
 			"x every release order (<=4 gates; seeded beyond) x CancelRequest of each waiting call; slot counter from the library's own hook sites checked online and at every quiescent point; " +
 			"plus delay sets over the srv.invoke.* sites and seeded perturbation. distinct_nontrivial = distinct (script, action sequence, delay set) whose call count exceeds L (a waiter exists) or equals L",
-		Assumptions: []string{"Go 1.26.8 runtime and testing/synctest quiescence", "no notifications in the scripts, so every arrived call is dispatched"},
+		Assumptions: []string{"Go 1.26.8 runtime and testing/synctest quiescence", "only instant notifications in the scripts, so every arrived call is dispatched unless all slots are held"},
 		Require:     map[string]int64{"handler_runs": 200, "runs_reaching_limit": 50},
 		Cases:       c06cases,
 	})
@@ -233,10 +258,14 @@ func c06cases(e vt.Env, yield func(vt.Case) bool) {
 				continue
 			}
 			for si, split := range c06splits(total) {
-				for _, variant := range []string{"g", "gi", "gb"} {
+				for _, variant := range []string{"g", "gi", "gb", "gx"} {
 					var s c06script
 					s.limit = L
 					k := 0
+					if variant == "gx" {
+						// handlers that fail in every way first: a leaked slot would starve what follows
+						s.batches = append(s.batches, []string{"E", "e"}, []string{"n", "u", "E"})
+					}
 					for _, n := range split {
 						var b []string
 						for j := 0; j < n; j++ {
@@ -360,11 +389,17 @@ func c06cases(e vt.Env, yield func(vt.Case) bool) {
 		s.batches = make([][]string, nb)
 		for k := 0; k < total; k++ {
 			kind := "g"
-			switch rng.IntN(6) {
+			switch rng.IntN(10) {
 			case 0:
 				kind = "i"
 			case 1:
 				kind = "b"
+			case 2:
+				kind = "E"
+			case 3:
+				kind = "e"
+			case 4:
+				kind = "u"
 			}
 			bi := rng.IntN(nb)
 			s.batches[bi] = append(s.batches[bi], kind)
